@@ -309,7 +309,24 @@ func readerEscapes(p *Program, fn *ssa.Function) (table map[byte]byte, unicode m
 			if !ok {
 				continue
 			}
-			if cal := call.Call.StaticCallee(); cal != nil && cal.Pkg != nil && cal.Pkg.Pkg.Path() == "strconv" {
+			parses := false
+			if cal := call.Call.StaticCallee(); cal != nil && cal.Pkg != nil {
+				if cal.Pkg.Pkg.Path() == "strconv" {
+					parses = true
+				} else if inModule(cal) && cal != fn {
+					// a helper of the package that parses the digits
+					for _, hb := range cal.Blocks {
+						for _, hi := range hb.Instrs {
+							if hc, ok := hi.(*ssa.Call); ok {
+								if c2 := hc.Call.StaticCallee(); c2 != nil && c2.Pkg != nil && c2.Pkg.Pkg.Path() == "strconv" {
+									parses = true
+								}
+							}
+						}
+					}
+				}
+			}
+			if parses {
 				if d := in[b]; !d.neg {
 					for _, v := range d.values() {
 						unicode[v] = true
@@ -657,7 +674,6 @@ func readerUndoubles1(fn *ssa.Function) bool {
 	}
 	return same && brace
 }
-
 
 // arrayEntries: the constant elements a package-level byte array is initialised with.
 func arrayEntries(g *ssa.Global) map[byte]byte {
